@@ -59,7 +59,7 @@ theorem nodup_set (s : Store) (id : PayId) (v : PState) (h : (keys s).Nodup) : (
   show (id :: keys (s.filter (·.1 != id))).Nodup
   exact List.nodup_cons.2 ⟨not_mem_keys_filter s id, h.sublist (keys_filter_sub s id)⟩
 
-theorem keys_map (s : Store) (f : PayId → PState → PState) : keys (s.map fun e => (e.1, f e.1 e.2)) = keys s := by
+theorem keys_map (s : Store) (g : PayId × PState → PState) : keys (s.map fun e => (e.1, g e)) = keys s := by
   unfold keys; simp [List.map_map, Function.comp_def]
 
 theorem get_absent_of_not_mem (s : Store) (id : PayId) (h : id ∉ keys s) : get s id = .absent := by
@@ -108,5 +108,403 @@ theorem filter_flatMap_events (s : Store) (g : PayId → PState → List Ev) (id
     · have hk : (id == a) = false := by simpa using (fun h : id = a => ha h.symm)
       rw [none_of a v ha, ih hnd'.2]
       simp [get, List.lookup, hk]
+
+
+/-! ### projection of a global step onto one payment id -/
+
+/-- what a global step does to payment `id`: its new state and the events it pushed for it -/
+def projStep (id : PayId) (s : State) (op : Op) : PState × List Ev :=
+  match proj id s op with
+  | some pop => ((stepP id (get s.cur id) pop).1, (stepP id (get s.cur id) pop).2.evs)
+  | none => (get s.cur id, [])
+
+theorem one_get_self (s : State) (id : PayId) (pop : POp) :
+    get (one s id pop).1.cur id = (stepP id (get s.cur id) pop).1 := by
+  simp [one, get_set_self]
+
+theorem one_get_ne (s : State) (i id : PayId) (pop : POp) (h : id ≠ i) :
+    get (one s i pop).1.cur id = get s.cur id := by
+  simp [one, get_set_ne _ _ _ _ h]
+
+theorem one_evs_ne (s : State) (i id : PayId) (pop : POp) (P : Ev → Bool) (hP : ∀ e, P e = true → e.id = id)
+    (h : id ≠ i) : (one s i pop).2.evs.filter P = [] := by
+  apply List.filter_eq_nil_iff.2
+  intro e he hpe
+  exact h ((hP e hpe).symm.trans (stepP_evs_id i _ pop e he))
+
+theorem all_get (s : State) (f : PayId → POp) (hf : ∀ k, (stepP k .absent (f k)).1 = .absent) (id : PayId) :
+    get (all s f).1.cur id = (stepP id (get s.cur id) (f id)).1 := by
+  simp only [all]
+  exact get_map s.cur (fun k v => (stepP k v (f k)).1) hf id
+
+theorem all_evs (s : State) (f : PayId → POp) (hf : ∀ k, (stepP k .absent (f k)).2.evs = []) (id : PayId)
+    (P : Ev → Bool) (hP : ∀ e, P e = true → e.id = id) (hnd : (keys s.cur).Nodup) :
+    (all s f).2.evs.filter P = (stepP id (get s.cur id) (f id)).2.evs.filter P := by
+  simp only [all]
+  exact filter_flatMap_events s.cur (fun k v => (stepP k v (f k)).2.evs) id P hP
+    (fun k v e he => stepP_evs_id k v (f k) e he) (hf id) hnd
+
+theorem step_get (s : State) (op : Op) (id : PayId) (hop : op ≠ .restore) :
+    get (step s op).1.cur id = (projStep id s op).1 := by
+  cases op <;> simp only [step, proj, projStep] <;> try contradiction
+  all_goals first
+    | rfl
+    | (rename_i i _ _ _; by_cases h : i = id
+       · subst h; simp [one_get_self]
+       · simp [h, one_get_ne _ _ _ _ (Ne.symm h)])
+    | (rename_i i _ _; by_cases h : i = id
+       · subst h; simp [one_get_self]
+       · simp [h, one_get_ne _ _ _ _ (Ne.symm h)])
+    | (rename_i i _; by_cases h : i = id
+       · subst h; simp [one_get_self]
+       · simp [h, one_get_ne _ _ _ _ (Ne.symm h)])
+    | exact all_get s _ (fun k => rfl) id
+
+
+theorem one_evs_self (s : State) (id : PayId) (pop : POp) :
+    (one s id pop).2.evs = (stepP id (get s.cur id) pop).2.evs := rfl
+
+theorem step_evs (s : State) (op : Op) (id : PayId) (P : Ev → Bool) (hP : ∀ e, P e = true → e.id = id)
+    (hnd : (keys s.cur).Nodup) :
+    (step s op).2.evs.filter P = (projStep id s op).2.filter P := by
+  cases op <;> simp only [step, proj, projStep]
+  all_goals first
+    | rfl
+    | (rename_i i _ _ _; by_cases h : i = id
+       · subst h; simp [one_evs_self]
+       · simp [h, one_evs_ne _ _ _ _ P hP (Ne.symm h)])
+    | (rename_i i _ _; by_cases h : i = id
+       · subst h; simp [one_evs_self]
+       · simp [h, one_evs_ne _ _ _ _ P hP (Ne.symm h)])
+    | (rename_i i _; by_cases h : i = id
+       · subst h; simp [one_evs_self]
+       · simp [h, one_evs_ne _ _ _ _ P hP (Ne.symm h)])
+    | exact all_evs s _ (fun k => rfl) id P hP hnd
+
+theorem wf_step (s : State) (op : Op) (h : WF s) : WF (step s op).1 := by
+  obtain ⟨h1, h2⟩ := h
+  cases op <;> simp only [step, one, all, WF] <;>
+    first
+      | exact ⟨nodup_set _ _ _ h1, h2⟩
+      | exact ⟨by rw [keys_map s.cur (fun e => (stepP e.1 e.2 _).1)]; exact h1, h2⟩
+      | exact ⟨(keys_map s.cur _).symm ▸ h1, h2⟩
+      | exact ⟨h1, h2⟩
+      | exact ⟨h1, h1⟩
+      | exact ⟨h2, h2⟩
+
+theorem wf_init : WF init := by simp [WF, init, keys]
+
+
+/-! ### the per-payment invariant of one payment instance -/
+
+/-- terminal-event counts so far in this instance (`nS` PaymentSent, `nF` PaymentFailed) and whether a claim
+    reached the payment while it owned HTLCs (`c`) -/
+def LInv (st : PState) (nS nF : Nat) (c : Bool) : Prop :=
+  match st with
+  | .absent => False
+  | .preHtlc _ | .retryable _ => nS = 0 ∧ nF = 0 ∧ c = false
+  | .abandoned ps _ => nS = 0 ∧ nF = 0 ∧ c = false ∧ ps ≠ []
+  | .fulfilled _ _ => nS = 1 ∧ nF = 0 ∧ c = true
+
+/-- what holds when the instance has ended (the entry was removed) -/
+def Done (nS nF : Nat) (c : Bool) : Prop := nS + nF = 1 ∧ (nS = 1 ↔ c = true)
+
+def claimHit (st : PState) : POp → Bool
+  | .claim _ _ => st.hasHtlcState
+  | _ => false
+
+theorem nSent_nil (id : PayId) : nSent id [] = 0 := rfl
+theorem nFailed_nil (id : PayId) : nFailed id [] = 0 := rfl
+theorem nSent_append (id : PayId) (a b : List Ev) : nSent id (a ++ b) = nSent id a + nSent id b := by
+  simp [nSent, List.filter_append]
+theorem nFailed_append (id : PayId) (a b : List Ev) : nFailed id (a ++ b) = nFailed id a + nFailed id b := by
+  simp [nFailed, List.filter_append]
+
+theorem local_step (id : PayId) (st : PState) (pop : POp) (nS nF : Nat) (c : Bool) (h : LInv st nS nF c) :
+    ((stepP id st pop).1 ≠ .absent →
+        LInv (stepP id st pop).1 (nS + nSent id (stepP id st pop).2.evs) (nF + nFailed id (stepP id st pop).2.evs)
+          (c || claimHit st pop)) ∧
+    ((stepP id st pop).1 = .absent →
+        Done (nS + nSent id (stepP id st pop).2.evs) (nF + nFailed id (stepP id st pop).2.evs) (c || claimHit st pop)) := by
+  cases pop <;> cases st <;> simp only [LInv] at h <;> simp only [stepP, abandonNow, claimHit, PState.hasHtlcState] <;>
+    (repeat' split) <;>
+    simp_all [LInv, Done, nSent, nFailed, isFailedFor]
+
+
+theorem first_step (id : PayId) (pop : POp) :
+    nSent id (stepP id .absent pop).2.evs = 0 ∧ nFailed id (stepP id .absent pop).2.evs = 0 ∧
+    ((stepP id .absent pop).1 ≠ .absent → LInv (stepP id .absent pop).1 0 0 false) := by
+  cases pop <;> simp [stepP, LInv, nSent, nFailed]
+
+/-! ### runs -/
+
+def present (s : State) (id : PayId) : Prop := get s.cur id ≠ .absent
+
+/-- no process restart in the op list -/
+def NoRestore (ops : List Op) : Prop := Op.restore ∉ ops
+
+/-- the payment is present in every state strictly inside the run (after each op but the last) -/
+def StaysPresent (id : PayId) : State → List Op → Prop
+  | _, [] => True
+  | _, [_] => True
+  | s, op :: op' :: rest => present (step s op).1 id ∧ StaysPresent id (step s op).1 (op' :: rest)
+
+/-- a `claim_htlc` for this id is executed while the payment owns HTLCs (Retryable / Fulfilled / Abandoned) -/
+def opClaimHit (id : PayId) (s : State) : Op → Bool
+  | .claim i _ _ => i == id && (get s.cur id).hasHtlcState
+  | _ => false
+
+def claimHits (id : PayId) : State → List Op → Bool
+  | _, [] => false
+  | s, op :: rest => opClaimHit id s op || claimHits id (step s op).1 rest
+
+theorem sentP_id (id : PayId) : ∀ e, (e == Ev.sent id) = true → e.id = id := by
+  intro e he; have : e = Ev.sent id := by simpa using he
+  subst this; rfl
+theorem failedP_id (id : PayId) : ∀ e, isFailedFor id e = true → e.id = id := by
+  intro e he; cases e <;> simp_all [isFailedFor, Ev.id]
+
+theorem nSent_step (s : State) (op : Op) (id : PayId) (hwf : WF s) :
+    nSent id (step s op).2.evs = nSent id (projStep id s op).2 := by
+  unfold nSent; rw [step_evs s op id _ (sentP_id id) hwf.1]
+theorem nFailed_step (s : State) (op : Op) (id : PayId) (hwf : WF s) :
+    nFailed id (step s op).2.evs = nFailed id (projStep id s op).2 := by
+  unfold nFailed; rw [step_evs s op id _ (failedP_id id) hwf.1]
+
+theorem opClaimHit_proj (id : PayId) (s : State) (op : Op) :
+    opClaimHit id s op = (match proj id s op with | some pop => claimHit (get s.cur id) pop | none => false) := by
+  cases op <;> simp only [opClaimHit, proj] <;>
+    first
+      | rfl
+      | (rename_i i _ _ _; by_cases h : i = id <;> simp [h, claimHit])
+      | (rename_i i _ _; by_cases h : i = id <;> simp [h, claimHit])
+      | (rename_i i _; by_cases h : i = id <;> simp [h, claimHit])
+
+/-- one global (non-restart) step keeps the per-payment invariant, or ends the instance with `Done` -/
+theorem global_step (s : State) (op : Op) (id : PayId) (nS nF : Nat) (c : Bool) (hwf : WF s)
+    (hop : op ≠ .restore) (h : LInv (get s.cur id) nS nF c) :
+    (get (step s op).1.cur id ≠ .absent →
+      LInv (get (step s op).1.cur id) (nS + nSent id (step s op).2.evs) (nF + nFailed id (step s op).2.evs)
+        (c || opClaimHit id s op)) ∧
+    (get (step s op).1.cur id = .absent →
+      Done (nS + nSent id (step s op).2.evs) (nF + nFailed id (step s op).2.evs) (c || opClaimHit id s op)) := by
+  rw [step_get s op id hop, nSent_step s op id hwf, nFailed_step s op id hwf, opClaimHit_proj]
+  unfold projStep
+  cases hp : proj id s op with
+  | none =>
+    simp only [nSent_nil, nFailed_nil, Nat.add_zero, Bool.or_false]
+    exact ⟨fun _ => h, fun habs => by rw [habs] at h; exact h.elim⟩
+  | some pop => exact local_step id _ pop nS nF c h
+
+/-- first op of an instance: executed on the absent payment -/
+theorem global_first (s : State) (op : Op) (id : PayId) (hwf : WF s) (hop : op ≠ .restore)
+    (h : get s.cur id = .absent) :
+    nSent id (step s op).2.evs = 0 ∧ nFailed id (step s op).2.evs = 0 ∧ opClaimHit id s op = false ∧
+    (get (step s op).1.cur id ≠ .absent → LInv (get (step s op).1.cur id) 0 0 false) := by
+  rw [step_get s op id hop, nSent_step s op id hwf, nFailed_step s op id hwf, opClaimHit_proj]
+  unfold projStep
+  cases hp : proj id s op with
+  | none => simp [h, nSent_nil, nFailed_nil]
+  | some pop =>
+    rw [h]
+    have := first_step id pop
+    refine ⟨this.1, this.2.1, ?_, this.2.2⟩
+    cases pop <;> simp [claimHit, PState.hasHtlcState]
+
+
+theorem run_nil (s : State) : run s [] = (s, []) := rfl
+theorem run_cons (s : State) (op : Op) (rest : List Op) :
+    run s (op :: rest) = ((run (step s op).1 rest).1, (step s op).2.evs ++ (run (step s op).1 rest).2) := rfl
+
+theorem run_inv (id : PayId) : ∀ (ops : List Op) (s : State) (nS nF : Nat) (c : Bool), WF s → NoRestore ops →
+    LInv (get s.cur id) nS nF c → StaysPresent id s ops →
+    (get (run s ops).1.cur id ≠ .absent →
+      LInv (get (run s ops).1.cur id) (nS + nSent id (run s ops).2) (nF + nFailed id (run s ops).2)
+        (c || claimHits id s ops)) ∧
+    (get (run s ops).1.cur id = .absent →
+      Done (nS + nSent id (run s ops).2) (nF + nFailed id (run s ops).2) (c || claimHits id s ops)) := by
+  intro ops
+  induction ops with
+  | nil =>
+    intro s nS nF c _ _ h _
+    simp only [run_nil, nSent_nil, nFailed_nil, claimHits, Nat.add_zero, Bool.or_false]
+    exact ⟨fun _ => h, fun habs => by rw [habs] at h; exact h.elim⟩
+  | cons op rest ih =>
+    intro s nS nF c hwf hnr h hst
+    have hop : op ≠ .restore := fun e => hnr (by simp [e])
+    have hnr' : NoRestore rest := fun hm => hnr (List.mem_cons_of_mem _ hm)
+    have hg := global_step s op id nS nF c hwf hop h
+    have hwf' := wf_step s op hwf
+    simp only [run_cons, nSent_append, nFailed_append, claimHits, ← Nat.add_assoc, ← Bool.or_assoc]
+    cases rest with
+    | nil =>
+      simp only [run_nil, nSent_nil, nFailed_nil, claimHits, Nat.add_zero, Bool.or_false]
+      exact hg
+    | cons op' rest' =>
+      have hp : get (step s op).1.cur id ≠ .absent := hst.1
+      exact ih (step s op).1 _ _ _ hwf' hnr' (hg.1 hp) hst.2
+
+/-- one payment instance: the id is absent, no restart happens, and the id stays present until (at most) the
+    last op — i.e. `ops` is an initial segment of a maximal interval in which the id is present -/
+structure Instance (id : PayId) (s : State) (ops : List Op) : Prop where
+  wf : WF s
+  fresh : get s.cur id = .absent
+  norestore : NoRestore ops
+  stays : StaysPresent id s ops
+
+/-- the instance really began: its first op created the entry -/
+def Started (id : PayId) (s : State) (ops : List Op) : Prop :=
+  ∃ op rest, ops = op :: rest ∧ get (step s op).1.cur id ≠ .absent
+
+theorem instance_summary (id : PayId) (s : State) (ops : List Op) (h : Instance id s ops) :
+    (get (run s ops).1.cur id ≠ .absent →
+      LInv (get (run s ops).1.cur id) (nSent id (run s ops).2) (nFailed id (run s ops).2) (claimHits id s ops)) ∧
+    (get (run s ops).1.cur id = .absent →
+      (Started id s ops → Done (nSent id (run s ops).2) (nFailed id (run s ops).2) (claimHits id s ops)) ∧
+      (¬ Started id s ops → nSent id (run s ops).2 = 0 ∧ nFailed id (run s ops).2 = 0 ∧ claimHits id s ops = false)) := by
+  obtain ⟨hwf, hfresh, hnr, hst⟩ := h
+  cases ops with
+  | nil =>
+    simp only [run_nil, claimHits, nSent_nil, nFailed_nil]
+    refine ⟨fun hne => (hne hfresh).elim, fun _ => ⟨fun hs => ?_, fun _ => by simp⟩⟩
+    obtain ⟨op, rest, he, _⟩ := hs; cases he
+  | cons op rest =>
+    have hop : op ≠ .restore := fun e => hnr (by simp [e])
+    have hnr' : NoRestore rest := fun hm => hnr (List.mem_cons_of_mem _ hm)
+    obtain ⟨h1, h2, h3, h4⟩ := global_first s op id hwf hop hfresh
+    have hwf' := wf_step s op hwf
+    simp only [run_cons, nSent_append, nFailed_append, claimHits, h1, h2, h3, Nat.zero_add, Bool.false_or]
+    by_cases hp : get (step s op).1.cur id = .absent
+    · -- the first op did not create the entry: nothing more can follow
+      cases rest with
+      | nil =>
+        simp only [run_nil, nSent_nil, nFailed_nil, claimHits]
+        refine ⟨fun hne => (hne hp).elim, fun _ => ⟨fun hs => ?_, fun _ => by simp⟩⟩
+        obtain ⟨op2, rest2, he, hne⟩ := hs
+        cases he; exact (hne hp).elim
+      | cons op' rest' => exact (hst.1 hp).elim
+    · have hst' : StaysPresent id (step s op).1 rest := by
+        cases rest with
+        | nil => trivial
+        | cons op' rest' => exact hst.2
+      have := run_inv id rest (step s op).1 0 0 false hwf' hnr' (h4 hp) hst'
+      simp only [Nat.zero_add, Bool.false_or] at this
+      refine ⟨this.1, fun habs => ⟨fun _ => this.2 habs, fun hns => (hns ⟨op, rest, rfl, hp⟩).elim⟩⟩
+
+
+/-! ### single-step facts: refusal of duplicates, idempotence, when an entry is dropped -/
+
+theorem contains_removePart (p : PartId) (ps : List PartId) : (removePart p ps).contains p = false := by
+  simp [removePart]
+
+theorem not_mem_removePart (p : PartId) (ps : List PartId) : p ∉ removePart p ps := by
+  simp [removePart]
+
+theorem removePart_of_not_mem (p : PartId) (ps : List PartId) (h : ps.contains p = false) : removePart p ps = ps := by
+  unfold removePart
+  apply List.filter_eq_self.2
+  intro a ha
+  have : a ≠ p := fun e => by subst e; simp [ha] at h
+  simpa using this
+
+theorem removePart_idem (p : PartId) (ps : List PartId) : removePart p (removePart p ps) = removePart p ps :=
+  removePart_of_not_mem p _ (contains_removePart p ps)
+
+theorem all_eq_of_removePart_nil (p : PartId) (ps : List PartId) (h : removePart p ps = []) : ∀ q ∈ ps, q = p := by
+  intro q hq
+  unfold removePart at h
+  have := List.filter_eq_nil_iff.1 h q hq
+  simpa using this
+
+/-- the resolution ops of one HTLC -/
+def POp.isResolution : POp → Bool
+  | .claim _ _ | .finalize _ | .fail _ _ _ => true
+  | _ => false
+
+theorem repeat_fail (id : PayId) (st : PState) (p : PartId) (a pm : Bool) :
+    (stepP id (stepP id st (.fail p a pm)).1 (.fail p a pm)).1 = (stepP id st (.fail p a pm)).1 ∧
+    (stepP id (stepP id st (.fail p a pm)).1 (.fail p a pm)).2.evs = [] := by
+  cases st with
+  | absent => simp [stepP]
+  | preHtlc t => simp [stepP]
+  | fulfilled ps t => simp [stepP, removePart_idem]
+  | retryable ps =>
+    by_cases hc : p ∈ ps
+    · by_cases hr : a = true ∧ pm = false
+      · simp [stepP, hc, hr, not_mem_removePart]
+      · by_cases he : removePart p ps = []
+        · simp [stepP, abandonNow, hc, hr, he]
+        · simp [stepP, abandonNow, hc, hr, he, not_mem_removePart]
+    · simp [stepP, hc]
+  | abandoned ps r =>
+    by_cases hc : p ∈ ps
+    · by_cases he : removePart p ps = []
+      · simp [stepP, abandonNow, hc, he]
+      · simp [stepP, abandonNow, hc, he, not_mem_removePart]
+    · simp [stepP, hc]
+
+theorem repeat_finalize (id : PayId) (st : PState) (p : PartId) :
+    (stepP id (stepP id st (.finalize p)).1 (.finalize p)).1 = (stepP id st (.finalize p)).1 ∧
+    (stepP id (stepP id st (.finalize p)).1 (.finalize p)).2.evs = [] := by
+  cases st with
+  | fulfilled ps t =>
+    by_cases hc : p ∈ ps
+    · simp [stepP, hc, not_mem_removePart]
+    · simp [stepP, hc]
+  | _ => simp [stepP]
+
+theorem repeat_claim (id : PayId) (st : PState) (p : PartId) (oc : Bool) :
+    (stepP id (stepP id st (.claim p oc)).1 (.claim p oc)).1 = (stepP id st (.claim p oc)).1 ∧
+    (stepP id (stepP id st (.claim p oc)).1 (.claim p oc)).2.evs = [] := by
+  cases st with
+  | absent => simp [stepP]
+  | preHtlc t => simp [stepP]
+  | fulfilled ps t =>
+    by_cases hc : oc = true ∧ p ∈ ps
+    · simp [stepP, hc, not_mem_removePart]
+    · simp [stepP, hc]
+  | retryable ps =>
+    by_cases hc : oc = true ∧ p ∈ ps
+    · simp [stepP, hc, not_mem_removePart]
+    · simp [stepP, hc]
+  | abandoned ps r =>
+    by_cases hc : oc = true ∧ p ∈ ps
+    · simp [stepP, hc, not_mem_removePart]
+    · simp [stepP, hc]
+
+/-- repeating a claim / finalize / fail right away changes nothing and pushes nothing -/
+theorem stepP_repeat (id : PayId) (st : PState) (pop : POp) (h : pop.isResolution = true) :
+    (stepP id (stepP id st pop).1 pop).1 = (stepP id st pop).1 ∧ (stepP id (stepP id st pop).1 pop).2.evs = [] := by
+  cases pop <;> simp only [POp.isResolution] at h <;> try contradiction
+  · exact repeat_claim ..
+  · exact repeat_finalize ..
+  · exact repeat_fail ..
+
+/-- a fail for a part the payment does not hold (already removed) changes nothing and pushes nothing -/
+theorem stepP_fail_absent_part (id : PayId) (st : PState) (p : PartId) (a pm : Bool)
+    (hp : st.parts.contains p = false) (hpre : ∀ t, st ≠ .preHtlc t) :
+    stepP id st (.fail p a pm) = (st, {}) := by
+  cases st <;> simp_all [stepP, PState.parts, removePart_of_not_mem]
+
+/-- a claim for a part that is gone, on a payment already fulfilled (or already forgotten), is silent -/
+theorem stepP_claim_absent_part (id : PayId) (st : PState) (p : PartId) (oc : Bool)
+    (hp : st.parts.contains p = false) (hst : st = .absent ∨ st.isFulfilled = true) :
+    stepP id st (.claim p oc) = (st, {}) := by
+  cases st <;> simp_all [stepP, PState.parts, PState.isFulfilled]
+
+/-- an entry is removed only when it holds no part, except for the one part that the removing `fail` resolves -/
+theorem stepP_drop (id : PayId) (st : PState) (pop : POp) (hst : st ≠ .absent) (h : (stepP id st pop).1 = .absent) :
+    ∀ q ∈ st.parts, ∃ a pm, pop = .fail q a pm := by
+  cases pop <;> cases st <;> simp only [stepP, abandonNow] at h <;> (repeat' split at h) <;>
+    simp_all [PState.parts]
+  all_goals
+    intro q hq
+    have := all_eq_of_removePart_nil _ _ (by assumption) q hq
+    simp [this]
+
+/-- a present id refuses `send`: DuplicatePayment, nothing pushed, entry unchanged -/
+theorem stepP_send_present (id : PayId) (st : PState) (ps : List PartId) (hst : st ≠ .absent) :
+    stepP id st (.send ps) = (st, { dup := true }) := by
+  cases st <;> simp_all [stepP]
 
 end Ldk.OutboundPay
